@@ -45,6 +45,9 @@ where
 }
 
 fn format_spectrum<S: State>(spectrum: &Spectrum<S>, sep: &str, precision: usize) -> String {
+    // Formatting panics on a precision above u16::MAX; an f64 has no digits there
+    let precision = precision.min(usize::from(u16::MAX));
+
     if let Some(first) = spectrum.array.as_slice().first() {
         let mut init = String::new();
         write!(init, "{first:.precision$}").unwrap();
